@@ -100,3 +100,29 @@ Proof.
   rewrite Hp2. cbn [negb]. rewrite Hmany. cbn [andb]. unfold substituted in Hsub. rewrite Hsub. reflexivity.
 Qed.
 Print Assumptions call_runs_the_body.
+
+(* ---- SearchIncFile: the current directory first, then the library directories in order ---- *)
+Theorem search_finds_cwd_first name c : is_file name c = true -> search_inc_file name c = (name, true).
+Proof. intro H. unfold search_inc_file. rewrite H. reflexivity. Qed.
+Theorem search_finds_first_library name c pre d post :
+  is_file name c = false -> libdirs c = pre ++ d :: post ->
+  (forall d', In d' pre -> is_file (PathClean.join [d'; name]) c = false) ->
+  is_file (PathClean.join [d; name]) c = true ->
+  search_inc_file name c = (PathClean.join [d; name], true).
+Proof.
+  intros H0 Hl Hpre Hd. unfold search_inc_file. rewrite H0, Hl.
+  assert (F : find (fun d0 => is_file (PathClean.join [d0; name]) c) (pre ++ d :: post) = Some d).
+  { clear Hl. induction pre as [|x pre IH]; cbn [app find].
+    - rewrite Hd. reflexivity.
+    - rewrite (Hpre x (or_introl eq_refl)). apply IH. intros d' Hin. apply Hpre. right. exact Hin. }
+  rewrite F. reflexivity.
+Qed.
+Theorem search_reports_absence name c :
+  is_file name c = false -> (forall d, In d (libdirs c) -> is_file (PathClean.join [d; name]) c = false) ->
+  search_inc_file name c = (name, false).
+Proof.
+  intros H0 Hall. unfold search_inc_file. rewrite H0.
+  destruct (find _ (libdirs c)) as [d|] eqn:F; [|reflexivity].
+  apply find_some in F. destruct F as [Hin Hd]. rewrite (Hall d Hin) in Hd. discriminate.
+Qed.
+Print Assumptions search_finds_first_library.
